@@ -8,8 +8,8 @@ from .env import Fxp, to_float, is_exact_float, flat, exact, codes_of, tok_exact
 
 INT_DTYPES = ('int8', 'int16', 'int32', 'int64', 'uint8', 'uint16', 'uint32', 'uint64')
 FLOAT_DTYPES = ('float16', 'float32', 'float64', 'longdouble')
-SCALAR_CARRIERS = ('pyint', 'pyfloat', 'decstr', 'arr0d', 'fxp') + tuple('np.' + d for d in INT_DTYPES + FLOAT_DTYPES)
-ARRAY_CARRIERS = ('list', 'listf', 'listnp', 'tuple', 'nested', 'strlist', 'arr.fxp', 'arr2.fxp') + tuple('arr.' + d for d in INT_DTYPES + FLOAT_DTYPES) + tuple('arr2.' + d for d in ('int64', 'float64', 'float32', 'int16'))
+SCALAR_CARRIERS = ('pyint', 'pyfloat', 'decstr', 'npstr', 'arr0d', 'fxp') + tuple('np.' + d for d in INT_DTYPES + FLOAT_DTYPES)
+ARRAY_CARRIERS = ('list', 'listf', 'listnp', 'tuple', 'nested', 'strlist', 'strarr', 'arr.fxp', 'arr2.fxp') + tuple('arr.' + d for d in INT_DTYPES + FLOAT_DTYPES) + tuple('arr2.' + d for d in ('int64', 'float64', 'float32', 'int16'))
 ROUTES = ('ctor', 'call', 'setval', 'setitem', 'tmpl', 'tmplkw')
 
 
@@ -80,10 +80,24 @@ def fxp_source_format(vals):
     return (True, max(w, fs + 1), fs)
 
 
+def fxp_exact_format(vals):
+    """a signed source format that holds any dyadic rationals exactly, whatever their number of significant bits (codes are handed over
+    raw, as python integers): (True, n_word, n_frac), or None beyond 250 bits."""
+    if any(v.denominator & (v.denominator - 1) for v in vals):
+        return None
+    fs = max((v.denominator.bit_length() - 1 for v in vals), default=0)
+    w = max((abs(int(v * 2 ** fs)).bit_length() for v in vals), default=0) + 2
+    if w > 250 or fs > 200:
+        return None
+    return (True, max(w, fs + 1), fs)
+
+
 def ok_for(carrier, vals):
     kind, _, dt = carrier.partition('.')
     if carrier == 'fxp' or dt == 'fxp':
-        return fxp_source_format(vals) is not None and all(v.denominator == 1 or is_exact_float(v) for v in vals)
+        if fxp_source_format(vals) is not None and all(v.denominator == 1 or is_exact_float(v) for v in vals):
+            return True
+        return fxp_exact_format(vals) is not None       # values a double cannot hold: carried by raw codes
     if kind in ('np', 'arr', 'arr2'):
         if dt in INT_DTYPES:
             return all(_fits_int_dtype(v, dt) for v in vals)
@@ -100,8 +114,10 @@ def ok_for(carrier, vals):
         return all(is_exact_float(v) for v in vals)
     if carrier == 'listnp':
         return all(v.denominator == 1 and abs(v) < 2 ** 31 for v in vals) or all(_fits_float_dtype(v, 'float32') for v in vals)
-    if carrier == 'strlist':
+    if carrier in ('strlist', 'strarr'):
         return all(is_exact_float(v) and v.denominator.bit_length() <= 80 for v in vals)
+    if carrier == 'npstr':
+        return len(vals) == 1 and is_exact_float(vals[0]) and vals[0].denominator.bit_length() <= 80
     raise ValueError(carrier)
 
 
@@ -123,6 +139,14 @@ def build(carrier, vals):
         return dec_string(vals[0]), ()
     if carrier == 'fxp' or dt == 'fxp':
         # another Fxp object holding the values exactly (integer-born when all values are integers)
+        if fxp_source_format(vals) is None or not all(v.denominator == 1 or is_exact_float(v) for v in vals):
+            # values with more significant bits than a double has (a product of two 32-bit operands, say): the source is built from its codes
+            sg, w, fs = fxp_exact_format(vals)
+            codes = [int(v * 2 ** fs) for v in vals]
+            arr = codes[0] if carrier == 'fxp' else (np.array(codes, dtype=object) if kind == 'arr' else np.array(codes, dtype=object).reshape(2, n // 2))
+            src = Fxp(arr, sg, w, fs, raw=True)
+            assert [int(c) for c in flat(src.val)] == codes, 'exact fxp carrier not exact'
+            return src, (() if carrier == 'fxp' else (n,) if kind == 'arr' else (2, n // 2))
         sg, w, fs = fxp_source_format(vals)
         pv = [_py(v) for v in vals]
         if (w * 5 + fs * 3 + n) % 3 == 0:
@@ -182,6 +206,10 @@ def build(carrier, vals):
         return [[_py(v) for v in vals[:h]], [_py(v) for v in vals[h:]]], (2, h)
     if carrier == 'strlist':
         return [dec_string(v) for v in vals], (n,)
+    if carrier == 'strarr':
+        return np.array([dec_string(v) for v in vals]), (n,)       # a NumPy array of decimal strings
+    if carrier == 'npstr':
+        return np.str_(dec_string(vals[0])), ()
     raise ValueError(carrier)
 
 
